@@ -38,7 +38,9 @@ META = {
                "events: 11 classes x 5 schemes; AmbiguousInstanceType and UnknownEvent",
                "wrong-kind addresses and wrong-type arguments: concrete lists per argument position",
                "before every decode an unrelated 24-bit frame and an ENABLE DEVICE TYPE frame with a symbolic "
-               "type are decoded (what was decoded before must not matter)"],
+               "type are decoded (what was decoded before must not matter)",
+               "per command row a second live object of the class (fixed other arguments), constructed and "
+               "decoded while the first exists: the first one's frame must not change"],
     "stubs": ["isinstance/int shims", "SymDict registries", "SymKeyDict for the map in symbolic mode"],
     "outside": ["bool passed where an int is expected", "ReservedInstance arguments",
                 "the Device (0xFE) instance byte on instance commands (excluded by the property)",
